@@ -106,7 +106,8 @@ def gen_case(rng: random.Random, tier: str) -> dict:
     na = "ignore" if scen == "new_null" else rng.choice(["drop", "drop", "ignore"])
     return {"cols": cols, "formula": f, "output": rng.choice(["pandas", "numpy", "sparse"]), "scen": scen, "target": target,
             "label": nm(target), "change": change, "na": na, "wrapped": wrap.get(target, False), "tdtype": dts.get(target, "num"),
-            "shape": sorted(len(t) for t in terms), "structured": rng.choice([None, None, None, "second", "first"])}
+            "shape": sorted(len(t) for t in terms), "structured": rng.choice([None, None, None, "second", "first"]),
+            "gen2": rng.choice([None, None, "plain", "pickle", "deepcopy"]), "kind_as": rng.choice(["enum", "enum", "value"])}
 
 
 def judge(case) -> Outcome:
@@ -131,6 +132,9 @@ def judge(case) -> Outcome:
             out.fail("c09.fit_raised", f"{tag}: {type(e).__name__}: {str(e)[:200]}")
             return out
     spec = mm.model_spec
+    if case.get("kind_as") == "value":  # the recorded kinds written by value ('categorical'), as in hand-written encoder state
+        spec = spec.update(encoder_state={k: (getattr(v[0], "value", v[0]), v[1]) for k, v in spec.encoder_state.items()})
+        out.see("kinds_by_value")
     names = colnames(mm)
     m = 8
     newcols = [[n, dict(c, values=c["values"][:m])] for n, c in case["cols"]]
@@ -161,6 +165,26 @@ def judge(case) -> Outcome:
         out.fail("c09.columns_reshaped", f"{tag}: columns {n2} != fit columns {names}")
         return out
     label = case["label"]
+    gen2 = case.get("gen2")
+    if gen2:  # the spec attached to the follow-up matrix (second generation) behaves like the one it came from
+        import copy
+        import pickle
+
+        spec2 = m2.model_spec
+        spec2 = {"plain": lambda s_: s_, "pickle": lambda s_: pickle.loads(pickle.dumps(s_)), "deepcopy": copy.deepcopy}[gen2](spec2)
+        with quiet() as q2:
+            try:
+                m3 = spec2.get_model_matrix(new)
+            except Exception as e:  # noqa: BLE001
+                out.fail("c09.reuse_raised", f"{tag}: second-generation spec ({gen2}): {type(e).__name__}: {str(e)[:200]}")
+                return out
+        warned2 = any(issubclass(w.category, DataMismatchWarning) for w in q2.log)
+        if colnames(m3) != names or not np.allclose(dense(m3), M2, equal_nan=True):
+            out.fail("c09.columns_reshaped", f"{tag}: second-generation spec ({gen2}) gives columns {colnames(m3)} / other values than the first reuse")
+            return out
+        if warned and not warned2:
+            out.fail("c09.unseen_level_no_warning", f"{tag}: the spec of the follow-up matrix ({gen2}) applied to the same data again issued no DataMismatchWarning; the first reuse did")
+        out.see("second_generation_checked")
     if scen in ("new", "new_null"):
         if not warned:
             out.fail("c09.unseen_level_no_warning", f"{tag}: unseen level 'ZZ' in {target} but no DataMismatchWarning was issued")
